@@ -9,7 +9,7 @@ HARNESSES = {
     'K-fname': dict(path='rolling::directory::verif_kani::k_fname', fn='k_fname', bounded=False, bound='all 2^192 24-byte names (byte 4 a char boundary); loops bounded by the constant width 24, unwinding assertions on'),
     'K-fname-nb': dict(path='rolling::directory::verif_kani::k_fname_nb', fn='k_fname_nb', bounded=False, bound='all valid UTF-8 names of 24 bytes whose byte 4 is not a char boundary (exact validity predicate in the harness): None, no panic; loops bounded by the constant width 24'),
     'K-fname-len': dict(path='rolling::directory::verif_kani::k_fname_len', fn='k_fname_len', bounded=False, bound='all lengths 0..=32 except 24, all byte contents; loop-free'),
-    'K-fname-rt': dict(path='rolling::file_number::verif_kani::k_fname_rt', fn='k_fname_rt', bounded=True, bound='file numbers d*10^k, d in 0..=9, k in 0..=19 (one symbolic decimal digit at any place value)'),
+    'E-fname-rt': dict(kind='enum', path='rolling::file_number::verif_enum::e_fname_rt', fn='e_fname_rt', bounded=True, bound='NATIVE ENUMERATION (cargo test, not symbolic): every d*10^k and 2^k with both neighbours, u64::MAX, 200000 pseudo-random numbers: name is wal- + 20 digits and parses back'),
     'E-gate': dict(kind='enum', path='rolling::directory::verif_enum::e_gate', fn='e_gate', bounded=True, bound='NATIVE EXHAUSTIVE ENUMERATION (cargo test, not symbolic): trackers of 1..=5 files (consecutive or gapped numbers), every subset pinned by a live clone: 124 cases'),
     'K-handles': dict(path='rolling::file_number::verif_kani::k_handles', fn='k_handles', bounded=True, bound='fixed shape: 3 appends over 2 files, truncate position symbolic in 0..=3'),
     'K-hdr': dict(path='frame::header::verif_kani::k_hdr_roundtrip', fn='k_hdr_roundtrip', bounded=False, bound='all 2^56 7-byte headers; loop-free'),
